@@ -66,6 +66,13 @@ class Facts:
             if tr.endswith('wait::Wait') and adt:
                 self.wait_impls[short(adt)] = {it['name']: it['path'] for it in im['items']
                                                if it['kind'] == 'AssocFn'}
+        # methods an impl does not define are the trait's provided (default) bodies
+        for (tr_re, table) in ((r'(^|::)wait::Wait::(\w+)$', self.wait_impls), (r'(^|::)multiqueue::QueueRW::(\w+)$', self.flavours)):
+            for k, f in self.fns.items():
+                m = re.search(tr_re, k)
+                if m and f.get('kind') == 'AssocFn' and not f.get('impl_self'):
+                    for methods in table.values():
+                        methods.setdefault(m.group(2), k)
 
     def fn(self, path):
         f = self.fns.get(path)
@@ -229,6 +236,7 @@ class Graph:
         self._memo.clear()
         # edges
         calls = []
+        glues = []
         for bi, nid in inst.bbmap.items():
             n = self.nodes[nid]
             t = n.term
@@ -254,6 +262,8 @@ class Graph:
             elif k in ('drop', 'assert'):
                 if t['t'] in inst.bbmap:
                     n.succs = [inst.bbmap[t['t']]]
+                if k == 'drop' and t.get('glue') and n.succs:
+                    glues.append((nid, t['glue'], t['pl']))
             elif k == 'call':
                 calls.append(nid)
             elif k == 'otherterm':
@@ -261,7 +271,93 @@ class Graph:
             # unreachable / resume / terminate: no successors
         for nid in calls:
             self._do_call(inst, nid, depth, stack + (fn,))
+        for (nid, glue, pl) in glues:
+            self._do_glue(inst, nid, glue, pl, depth, stack + (fn,))
         return iid, inst.entry, inst.rets
+
+    def _do_glue(self, inst, nid, glue, pl, depth, stack):
+        """a value with destructors of this crate goes out of scope (drop terminator, `mem::drop(v)`,
+        `ptr::drop_in_place(p)`): the `Drop::drop` bodies run here, the value's own first and then those of its fields, each
+        on `&mut` of the part it belongs to (only destructors that are new relative to the reference tree, see below).  Parts behind an `Arc`/`Rc` are shared (the last owner's business, examined
+        on the owner's destructor as a root of its own); parts in an enum variant or a container run on some paths only."""
+        n = self.nodes[nid]
+        iid = inst.id
+        if not n.succs:
+            return
+        items = []
+        for it in glue:
+            c = it['fn']
+            if c not in self.facts.bodies or c in stack or depth >= self.max_depth:
+                continue
+            # the destructors of the reference tree are roots of their own (rules P8, P9*, P12*, P13*: what a handle's
+            # Drop does); a destructor the reference tree does not have (an RAII guard introduced by a change) is, like
+            # any fresh helper, part of the code that lets the value go out of scope
+            if c not in self.facts.fresh:
+                continue
+            if any(isinstance(q, dict) and (q.get('via') or '').rsplit('::', 1)[-1] in ('Arc', 'Rc') for q in it['proj']):
+                continue
+            if self.inline_filter and not self.inline_filter(c, depth):
+                continue
+            items.append(it)
+        if not items or len(items) > 6:
+            return
+        nxt = n.succs[0]
+        sbb = 1000 * (n.bb + 1)
+        for k_, it in reversed(list(enumerate(items))):
+            # synthetic nodes get block numbers of their own (a site is (inst, bb, kind, ..))
+            G = self._new_node(iid, n.fn, sbb + 10 * k_, 'block')
+            G.line = n.line
+            place = {'l': pl['l'], 'p': list(pl['p']) + list(it['proj'])}
+            G.term = {'k': 'call', 'fn': it['fn'], 'args': [{'k': 'addr', 'pl': place}], 'dest': {'l': -1, 'p': []}, 't': None, 'glue': True,
+                      'rk': 'item', 'resolved': it['fn']}
+            G.stmts = []
+            G.call = {'name': it['fn'], 'resolved': it['fn'], 'how': 'dropglue', 'inlined': None, 'closure_insts': [], 'target': nxt,
+                      'rk': 'item', 'trait': 'std::ops::Drop', 'method': 'drop'}
+
+            def binder(cinst, place=place, gid=G.id):
+                self._memo.clear()
+                self.defs.setdefault((cinst, 1), []).append(('op', {'k': 'addr', 'pl': place}, iid, (gid, None)))
+            cinst, centry, crets = self._expand(it['fn'], iid, G.id, depth + 1, stack, 'dropglue', binder)
+            G.call['inlined'] = cinst
+            for r in crets:
+                self.nodes[r].succs = [nxt]
+            if not it.get('maybe'):
+                G.succs = [centry]
+                nxt = G.id
+                continue
+            # conditional: the part lives in one variant of an enum (`Option<Guard>`): a test of the discriminant, so that
+            # the paths on which the variant is known take the right side
+            dj = None
+            for j, q in enumerate(it['proj']):
+                if isinstance(q, dict) and 'opaque' in q:
+                    break
+                if isinstance(q, dict) and 'downcast' in q and q.get('dv') is not None:
+                    dj = j
+                    break
+            rest_maybe = dj is None or any(isinstance(q, dict) and ('opaque' in q or 'downcast' in q) for q in it['proj'][dj + 1:])
+            G.succs = [centry] + ([nxt] if rest_maybe else [])
+            if dj is None:
+                nxt = G.id
+                continue
+            dv = str(it['proj'][dj]['dv'])
+            S = self._new_node(iid, n.fn, sbb + 10 * k_ + 1, 'block')
+            S.line = n.line
+            S.stmts = []
+            tmp = -(2 + S.id)
+            S.term = {'k': 'switch', 'op': {'k': 'copy', 'pl': {'l': tmp, 'p': []}}, 'vals': [dv], 'targets': [], 'otherwise': None, 'glue': True}
+            epl = {'l': pl['l'], 'p': list(pl['p']) + list(it['proj'][:dj])}
+            self.defs.setdefault((iid, tmp), []).append(('rv', {'k': 'discr', 'pl': epl}, iid, S.id, None))
+            E1 = self._new_node(iid, n.fn, S.bb, 'edge')
+            E1.edge = (S.id, dv, None)
+            E1.line = n.line
+            E1.succs = [G.id]
+            E2 = self._new_node(iid, n.fn, S.bb, 'edge')
+            E2.edge = (S.id, None, (dv,))
+            E2.line = n.line
+            E2.succs = [nxt]
+            S.succs = [E1.id, E2.id]
+            nxt = S.id
+        n.succs = [nxt]
 
     def _callee_of(self, inst, t):
         """-> (callee path or None, how, closure?)"""
@@ -357,6 +453,11 @@ class Graph:
         self._def_dest(iid, dest, ('callres', nid))
         if tgt is not None:
             n.succs = [tgt]
+        if t.get('glue') and tgt is not None and t['args'] and t['args'][0]['k'] in ('copy', 'move'):
+            pl0 = t['args'][0]['pl']
+            if t.get('glue_of') == 'pointee':
+                pl0 = {'l': pl0['l'], 'p': list(pl0['p']) + ['*']}
+            self._do_glue(inst, nid, t['glue'], pl0, depth, stack)
         # closures passed to external higher-order functions
         name = info['name']
         once = any(r.search(name) for r in HOF_ONCE)
@@ -763,6 +864,39 @@ class Graph:
                 allc = False
         return outs, allc
 
+    def _switch_origins(self, sid, bysite):
+        """(origins [(node, value of the switch operand)], kills, all origins constant) of the value a switch tests"""
+        S = self.nodes[sid]
+        op = S.term['op']
+        if op['k'] not in ('copy', 'move') or op['pl']['p']:
+            return None
+        fwd = set()
+        self._fwd_calls = set()
+        origins, _allc = self._const_origins(S.inst, op['pl']['l'], fwd)
+        if not origins:
+            return None
+        # an origin that was cloned by an earlier threading step lives on in its clones
+        origins = [(m, v) for (o, v) in origins for m in (bysite.get(self.site_of(o)) or [])]
+        if not origins:
+            return None
+        onodes = {o for o, _ in origins}
+        # definitions of the variables on the way that are neither origins nor mere conveyors of the value
+        kills = set()
+        for key in fwd:
+            for d in self.defs.get(key) or ():
+                kn = None
+                if d[0] == 'rv':
+                    rv = d[1]
+                    conv = rv['k'] in ('discr', 'agg', 'ref') or (rv['k'] == 'use' and (rv['op']['k'] != 'const' or rv['op'].get('v') is not None)) \
+                        or (rv['k'] == 'un' and rv['op'] == 'Not') or (rv['k'] == 'bin' and rv['op'] in ('Eq', 'Ne'))
+                    if not conv:
+                        kn = d[3]
+                elif d[0] == 'callres' and d[1] not in self._fwd_calls:
+                    kn = d[1]
+                if kn is not None and kn not in onodes:
+                    kills.update(bysite.get(self.site_of(kn)) or [kn])
+        return origins, kills, _allc
+
     def _thread_jumps(self):
         """jump threading: when the value a switchInt tests was assigned a constant / an enum
         variant at node O and O reaches the switch through a chain of single-successor nodes,
@@ -777,34 +911,11 @@ class Graph:
         switches = [n.id for n in self.nodes if n.kind == 'block' and n.term['k'] == 'switch' and len(n.succs) > 1 and n.id in live0]
         for sid in switches:
             S = self.nodes[sid]
-            op = S.term['op']
-            if op['k'] not in ('copy', 'move') or op['pl']['p']:
+            so = self._switch_origins(sid, bysite)
+            if so is None:
                 continue
-            fwd = set()
-            self._fwd_calls = set()
-            origins, _allc = self._const_origins(S.inst, op['pl']['l'], fwd)
-            if not origins:
-                continue
-            # an origin that was cloned by an earlier threading step lives on in its clones
-            origins = [(m, v) for (o, v) in origins for m in (bysite.get(self.site_of(o)) or [])]
-            if not origins:
-                continue
+            origins, kills, _allc = so
             onodes = {o for o, _ in origins}
-            # definitions of the variables on the way that are neither origins nor mere conveyors of the value
-            kills = set()
-            for key in fwd:
-                for d in self.defs.get(key) or ():
-                    kn = None
-                    if d[0] == 'rv':
-                        rv = d[1]
-                        conv = rv['k'] in ('discr', 'agg', 'ref') or (rv['k'] == 'use' and (rv['op']['k'] != 'const' or rv['op'].get('v') is not None)) \
-                            or (rv['k'] == 'un' and rv['op'] == 'Not') or (rv['k'] == 'bin' and rv['op'] in ('Eq', 'Ne'))
-                        if not conv:
-                            kn = d[3]
-                    elif d[0] == 'callres' and d[1] not in self._fwd_calls:
-                        kn = d[1]
-                    if kn is not None and kn not in onodes:
-                        kills.update(bysite.get(self.site_of(kn)) or [kn])
             kills.discard(sid)
             edges = {}
             other = None
@@ -1213,6 +1324,9 @@ class Graph:
         k = o['k']
         if k in ('copy', 'move'):
             return self.ev_place(iid, o['pl'], at)
+        if k == 'addr':
+            # `&mut place` handed to a destructor by the drop glue
+            return ('ref', self.ev_place(iid, o['pl'], at))
         if k == 'const':
             if 'fn' in o:
                 return ('fnc', o['fn'])
